@@ -60,6 +60,7 @@ var (
 func main() {
 	r := lib.Start("C15", "exploration")
 	r.Rule = "PRNG sequences of 5-40 Set/Get over a 36-URL alphabet (near-identical strings: case, port, query, fragment, escaping, trailing blank/slash, confusable; traversal, absolute, NUL, 70 kB, empty) with base and delta next-update independently in {-10y,-1h,-3min,-30s,+1h,+2h,+24h,+10y}; then corruption of stored entry files (every truncation class, >=200 single-bit flips, swapped/missing/null fields, foreign JSON, trailing bytes, directory in place of the file); distinct by (sequence id, operation index); non-trivial = Get operations and corruption probes"
+	r.Rule += "; plus entries over 32 MiB, reads moments after next-update, CRLs without next-update, bare CRL files in place of an entry, percent-escape URL pairs, failed stores keeping the previous entry, and goroutines with their own URLs on one cache value"
 	r.Assumptions = []string{"all next-update instants are >= 1 hour from now", "POSIX file system; inotify available",
 		"for corrupted files only the direction 'a returned bundle is byte-faithful to what the file encodes' and 'a file that is not valid JSON / has no parseable base CRL / has an unparseable non-null delta yields an error' are judged"}
 	// scratch must not live in the monitored TMPDIR decoy
